@@ -358,3 +358,33 @@ def run(ck):
     if 'auto_publish_off' in defs or 'auto_publish_withheld' in defs:
         ck.ob('C34.pub', 'C34.pub/hints/flag-definitions', ok_off and ok_wh, pe.loc(),
               'auto_publish_off is mode == Off and auto_publish_withheld is mode == Warn && auto_advertise_conflict')
+
+    # ---- a host with a colon never gets the "routable" verdict from the dispatcher itself -----------------------------------------
+    from sa.match import holds as _holds2
+    rf_false = [i for i in hc.walk() if hc.nodes[i]['k'] == 'ReturnStmt' and hc.kids(i) and hc.nodes[hc.strip(hc.kids(i)[0])].get('cv') == '0']
+
+    def no_colon(fact):
+        h = _holds2(hc, fact)
+        if not h:
+            return False
+        a_, rel, b_ = h
+        if rel != '==':
+            return False
+        for x_, y_ in ((a_, b_), (b_, a_)):
+            xn = hc.nodes[hc.strip(x_)]
+            if (xn.get('callee') or '').endswith('::find') and any(hc.nodes[j].get('v') == str(ord(':')) or hc.nodes[j].get('cv') == str(ord(':')) for j in hc.walk(hc.strip(x_))):
+                return True
+        return False
+    ck.floor('C34.v6', 'routable verdicts (`return false`) in is_private_or_reserved_host', len(rf_false), 1)
+    fails_, _n = gate_check(hc, [('return false', r) for r in rf_false], [("host.find(':') == npos", no_colon)])
+    ck.ob('C34.v6', 'C34.v6/no-routable-verdict-for-colon-hosts', not fails_, hc.loc(fails_[0][2]) if fails_ else hc.loc(),
+          'is_private_or_reserved_host answers "routable" itself only for hosts without a colon: every IPv6 spelling (also ::ffff:a.b.c.d and '
+          'zone-suffixed literals with dots) goes through the IPv6 classifier', fails_[0][3] if fails_ else None)
+    # ---- stale auto endpoints are dropped on every refresh, whatever the mode ---------------------------------------------------------
+    from sa.paths import Cfg as _Cfg2
+    strips = [i for i in rf.walk() if (rf.nodes[i].get('callee') or '').endswith('::erase') and
+              any(rf.nodes[j].get('n') == 'advertised_endpoints' for j in rf.walk(rf.receiver(i)))]
+    cfg_rf = _Cfg2.of(rf)
+    wit_ = cfg_rf.must_pass_from((cfg_rf.entry, -1), lambda e, s_=set(strips): e in s_ or any(rf.is_in(x, e) for x in s_) and rf.nodes[e]['k'] == 'ExprWithCleanups') if strips else ['no erase on advertised_endpoints']
+    ck.ob('C34.pub', 'C34.pub/refresh-strips-auto-entries-always', wit_ is None, rf.loc(),
+          'every refresh first removes the non-manual entries of config_.advertised_endpoints (also when the mode is Off: entries of an earlier run must not stay published)', wit_)
